@@ -47,7 +47,10 @@ class C13(Prop):
             "EventBulkInsertNum = 1 while a second database connection holds the write lock (BEGIN IMMEDIATE), an "
             "EVENT-heavy history cut after its T-th EVENT (T = 2 x EventBulkInsertNum + 2 mostly: one in the stalled "
             "insertion, the hand-over queue full, one hand-over waiting; sometimes fewer, rarely one more), ended by "
-            "cancel with a draining or a stalled peer; the lock is released once the ending has been observed. "
+            "cancel with a draining or a stalled peer; the lock is released once the ending has been observed. About 6% of the "
+            "sessions (compositions with a router) have two busy neighbours on the same handler for as long as they last: one "
+            "session sending REQ/CLOSE of one subscription id over and over, one publishing, up to 4000 messages each, both "
+            "reading; they are cancelled afterwards and must end too (lock-order and registry contention). "
             "WebSocket clause: (SendTimeout, PingDuration) from "
             "{100,300} ms x {0,20,1000} ms, 3 configurations in the quick tier (incl. ping disabled), all 6 in the thorough "
             "tier, plus the corpus. Model side: the theorems predict 'terminates and releases everything' for every case of "
@@ -175,6 +178,9 @@ class C13(Prop):
                 n = str(len(c.get("hist") or []))
                 d["history_lengths"][n] = d["history_lengths"].get(n, 0) + 1
                 d["settled"] += 1 if c.get("settle") else 0
+                if c.get("companion"):
+                    k2 = "stalled_companion" if c["companion"] == 1 else "busy_neighbours"
+                    d[k2] = d.get(k2, 0) + 1
                 if c.get("store") == "busy":
                     d["busy_store"] += 1
                     ne = str(sum(1 for m in c.get("hist") or [] if m["t"] == "EVENT"))
